@@ -31,6 +31,35 @@ ASSUMPTIONS = [
     "responses to POST requests are not fed to the decoder (a beacon does not process them)",
 ]
 
+class CaptureLogger:
+    """Stands in for the client's logger: keeps what the client would have logged (it swallows transport errors)."""
+
+    def __init__(self):
+        self.records = []
+
+    def _log(self, level, msg, *args):
+        try:
+            self.records.append((level, msg % args if args else msg))
+        except Exception:
+            self.records.append((level, repr((msg, args))))
+
+    def error(self, msg, *a, **k):
+        self._log("error", msg, *a)
+
+    def exception(self, msg, *a, **k):
+        self._log("exception", str(msg), *a)
+
+    def warning(self, msg, *a, **k):
+        self._log("warning", msg, *a)
+
+    def info(self, msg, *a, **k):
+        pass
+
+    debug = info
+
+
+TRANSIENT = ("ConnectError", "ConnectTimeout", "ReadTimeout", "ReadError", "PoolTimeout", "WriteError", "WriteTimeout")
+
 COMMANDS = [1, 2, 3, 4, 5, 8, 10, 11, 27, 32, 53, 95, 100]
 CALLBACKS = [0, 1, 2, 3, 13, 17, 22, 30, 32]
 
@@ -73,6 +102,8 @@ class Session:
                 what="HttpBeaconClient.run(dry_run=True)",
             )
         self.counter = 5000
+        self.caplog = CaptureLogger()
+        self.cl.logger = self.caplog
 
     # ------------------------------------------------------------------ helpers
     def _check_server(self, what):
@@ -80,6 +111,12 @@ class Session:
             err = list(self.srv.errors)
             self.srv.errors.clear()
             raise Violation("client:request_not_decodable_by_reference", f"{what}: the reference team server could not decode the library client's request: {err}; cfg={self.cfg}"[:1800])
+
+    def _no_request(self, what, n):
+        errs = [m for lvl, m in self.caplog.records if lvl in ("error", "exception")]
+        if any(t in m for m in errs for t in TRANSIENT):
+            raise HarnessError(f"transient transport failure on the loopback socket during {what}: {errs[-1][:300]}")
+        raise Violation("client:no_request", f"{what} produced {n} requests; client log: {errs[-3:]}; cfg={self.cfg}"[:1500])
 
     def _md_tuple_from_ref(self, md):
         return ("metadata", md["bid"], md["pid"], md["aes_rand"], md["info"], md["flag"], md["ip"], md["port"], md["ansi_cp"], md["oem_cp"], md["ver_major"], md["ver_minor"], md["ver_build"])
@@ -105,7 +142,7 @@ class Session:
             got = lib(self.cl.get_task, what="HttpBeaconClient.get_task()")
         self._check_server("checkin")
         if len(self.ts.log) != n0 + 1:
-            raise Violation("client:no_request", f"get_task() produced {len(self.ts.log) - n0} requests")
+            self._no_request("get_task()", len(self.ts.log) - n0)
         kind, raw_req, raw_resp, decoded = self.ts.log[-1]
         if kind != "get":
             raise Violation("client:wrong_route", f"check-in request was routed as {kind!r} by the reference: {raw_req[:200]!r}")
@@ -133,7 +170,7 @@ class Session:
             lib(self.cl.send_callback, BeaconCallback(cb), data, what="HttpBeaconClient.send_callback()")
         self._check_server("callback")
         if len(self.ts.log) != n0 + 1:
-            raise Violation("client:no_request", f"send_callback() produced {len(self.ts.log) - n0} requests")
+            self._no_request("send_callback()", len(self.ts.log) - n0)
         kind, raw_req, _resp, decoded = self.ts.log[-1]
         if kind != "post":
             raise Violation("client:wrong_route", f"callback request was routed as {kind!r} by the reference: {raw_req[:200]!r}")
